@@ -164,6 +164,12 @@ def schema_edits(spec, parsers=False, rich=True):
         eds.append(["frame", "ordered", True])
         eds.append(["frame", "unique", names[:2]])
         eds.append(["frame", "unique", names[:1]])
+        if len(names) >= 2:
+            # several joint-uniqueness sets (list of lists): every set must hold, whichever position it has in the list
+            eds.append(["frame", "unique", [names[:1], names[1:2]]])
+            eds.append(["frame", "unique", [names[1:2], names[:1]]])
+            if rich and len(names) >= 3:
+                eds.append(["frame", "unique", [[names[0], names[2]], [names[0], names[1]]]])
         if rich:
             eds.append(["frame2", {"unique": names[:2], "report_duplicates": "exclude_first"}])
             eds.append(["frame2", {"unique": names[:2], "report_duplicates": "exclude_last"}])
